@@ -225,7 +225,10 @@ func runC09(tier string, seed uint64, o *Out) error {
 		o.Line("C09 S sql %d %d %d %s # %s", n, ncols, len(rows), rowsTok(rows), resultsTok(res, true))
 		o.Count(fmt.Sprintf("sql N=%d cols=%d", n, ncols))
 	}
-	return carrierFamily(tier, seed, o)
+	if err := carrierFamily(tier, seed, o); err != nil {
+		return err
+	}
+	return lagFamily(tier, seed, o)
 }
 
 // ---- the Go carriers of one number -------------------------------------------------------------
